@@ -2,10 +2,10 @@
 import vlib
 
 
-def run(res, tier, harnesses, quick_deadline=100, thorough_deadline=900, kind="plain", nshards=None, extra=None):
+def run(res, tier, harnesses, quick_deadline=100, thorough_deadline=900, kind="plain", nshards=None, extra=None, warm=False):
     dl = quick_deadline if tier == "quick" else thorough_deadline
     for h in harnesses:
-        vlib.run_harness(res, h, tier, deadline=dl, kind=kind, nshards=nshards, extra=extra, timeout=dl * 3 + 600)
+        vlib.run_harness(res, h, tier, deadline=dl, kind=kind, nshards=nshards, extra=extra, timeout=dl * 3 + 600, warm=warm)
 
     def confirm(v):
         rp = v.get("replay") or {}
